@@ -1315,6 +1315,15 @@ class H2Connection:
 
         frames = []
 
+        # Look the stream up first: if that raises, no window may have been
+        # credited.
+        try:
+            stream = self._get_stream_by_id(stream_id)
+        except StreamClosedError:
+            # The stream is already gone. We're not worried about incrementing
+            # the window in this case.
+            stream = None
+
         conn_manager = self._inbound_flow_control_window_manager
         conn_increment = conn_manager.process_bytes(acknowledged_size)
         if conn_increment:
@@ -1322,18 +1331,11 @@ class H2Connection:
             f.window_increment = conn_increment
             frames.append(f)
 
-        try:
-            stream = self._get_stream_by_id(stream_id)
-        except StreamClosedError:
-            # The stream is already gone. We're not worried about incrementing
-            # the window in this case.
-            pass
-        else:
-            # No point incrementing the windows of closed streams.
-            if stream.open:
-                frames.extend(
-                    stream.acknowledge_received_data(acknowledged_size)
-                )
+        # No point incrementing the windows of closed streams.
+        if stream is not None and stream.open:
+            frames.extend(
+                stream.acknowledge_received_data(acknowledged_size)
+            )
 
         self._prepare_for_sending(frames)
 
